@@ -85,8 +85,8 @@ def check_C08(tier, seed):
     quick = tier == "quick"
     hists, gst = V.gen("LifecyclePair.tla", "MC_LifecyclePairGen.cfg" if not quick else "MC_LifecyclePairGen3.cfg", "C08")
     uniq = sorted({tuple(h) for h in hists})
-    n_pair = 700 if quick else len(uniq) * 2
-    n_rand = 500 if quick else 6000
+    n_pair = 1400 if quick else len(uniq) * 2
+    n_rand = 1000 if quick else 6000
     scripts = []
     pool = uniq if len(uniq) <= n_pair else sample(uniq, n_pair, r)
     k = 0
@@ -113,8 +113,8 @@ def check_C01(tier, seed):
     r = random.Random(seed * 7919 + 1)
     quick = tier == "quick"
     vecs, gst = V.gen("SeqGen.tla", "SeqGen_fates6.cfg" if quick else "SeqGen_fates8.cfg", "C01")
-    n_vec = 900 if quick else 12000
-    n_rand = 700 if quick else 12000
+    n_vec = 1800 if quick else 12000
+    n_rand = 1400 if quick else 12000
     chosen = sample(vecs, n_vec, r)
     scripts = [scen.streamdata_script(r, i, fate_vec=v) for i, v in enumerate(chosen)]
     scripts += [scen.streamdata_script(r, i) for i in range(n_rand)]
@@ -130,7 +130,7 @@ def check_C07(tier, seed):
     r = random.Random(seed * 7919 + 7)
     quick = tier == "quick"
     vecs, gst = V.gen("SeqGen.tla", "SeqGen_drop5.cfg" if quick else "SeqGen_fates6.cfg", "C07")
-    n_rand = 1200 if quick else 40000
+    n_rand = 3000 if quick else 40000
     scripts = []
     reps = 6 if quick else 3
     for v in vecs:
@@ -151,8 +151,8 @@ def check_C04(tier, seed):
     r = random.Random(seed * 7919 + 4)
     quick = tier == "quick"
     vecs, gst = V.gen("SeqGen.tla", "SeqGen_fates6.cfg", "C04")
-    n_vec = 500 if quick else 4096
-    n_rand = 1300 if quick else 30000
+    n_vec = 1000 if quick else 4096
+    n_rand = 2600 if quick else 30000
     scripts = [scen.auth_script(r, i, fate_vec=v) for i, v in enumerate(sample(vecs, n_vec, r))]
     scripts += [scen.auth_script(r, len(scripts) + i) for i in range(n_rand)]
     mcs = [("Auth.tla", "MC_Auth.cfg" if quick else "MC_Auth10.cfg")]
@@ -254,8 +254,8 @@ def check_C11(tier, seed):
     r = random.Random(seed * 7919 + 11)
     quick = tier == "quick"
     seqs, gst = V.gen("SeqGen.tla", "SeqGen_sm4.cfg" if quick else "SeqGen_sm5.cfg", "C11", timeout=1500)
-    n_seq = 1500 if quick else 60000
-    n_rand = 700 if quick else 20000
+    n_seq = 4000 if quick else 60000
+    n_rand = 1500 if quick else 20000
     scripts = [scen.streamsm_from_seq(q, r, i) for i, q in enumerate(sample(seqs, n_seq, r))]
     scripts += [scen.streamsm_random(r, len(scripts) + i) for i in range(n_rand)]
     mcs = [("StreamSM.tla", "MC_StreamSM.cfg")]
@@ -272,8 +272,8 @@ def check_C02(tier, seed):
     quick = tier == "quick"
     vecs, gst = V.gen("SeqGen.tla", "SeqGen_fates6.cfg" if quick else "SeqGen_fates8.cfg", "C02")
     drops, gst2 = V.gen("SeqGen.tla", "SeqGen_drop10.cfg" if quick else "SeqGen_drop12.cfg", "C02d")
-    n_vec = 900 if quick else 24000
-    n_drop = 600 if quick else 4096
+    n_vec = 1800 if quick else 24000
+    n_drop = 1024 if quick else 4096
     scripts = [scen.progress_script(r, i, fate_vec=v) for i, v in enumerate(sample(vecs, n_vec, r))]
     for d in sample(drops, n_drop, r):
         half = len(d) // 2
